@@ -60,6 +60,9 @@ def generate(seed, tier, index):
             if dev not in (None,) and rng.random() < 0.6:
                 cands = [v["name"] for d, v in vecs if d == dev]
                 name = rng.choice(cands + ["NOPE"]) if cands else "NOPE"
+            elif dev is None and rng.random() < 0.35:
+                # a property name without a device name: every device answers with that property only, if it has one
+                name = rng.choice([v["name"] for d, v in vecs] + ["NOPE"])
             steps.append({"op": "getprops", "c": 0, "device": dev, "name": name})
         elif r < 0.45:
             d, v, e = rng.choice(els)
@@ -204,6 +207,8 @@ def execute(scen):
                 nm = st["name"]
                 if nm is None:
                     name_cls = "absent"
+                elif st["device"] is None:
+                    name_cls = "named_without_device:" + ("known" if any(nm in t["vectors"] for t in truths.values()) else "unknown")
                 elif st["device"] in names and nm in truths[st["device"]]["vectors"]:
                     name_cls = "enabled" if truths[st["device"]]["vectors"][nm]["enabled"] else "disabled"
                 else:
